@@ -38,15 +38,28 @@ LOG (decisions)
     fail to deserialize; fixed in /repo by 3a09e57 = proposed_fixes/C17-duplicate-initializer-last-wins.diff;
     Model.deser_inits / PUnfold.pu_inits follow the fix).
 * Tie: correspondence on every run (quick 500 cases + corpus, thorough 12000): mutation stream over generated
-  valid protos (29 field-level mutation kinds, 1-5 per case: rename to existing/empty/new names, drop, duplicate,
+  valid protos (31 field-level mutation kinds, 1-5 per case: rename to existing/empty/new names, drop, duplicate,
   shuffle/reverse/cyclic nodes, unknown enum values in elem_type/data_type/attribute type, inconsistent tensor
   fields, absurd external-data entries, invalid UTF-8 in bytes fields, cleared/map/sequence-without-elem types,
   repeated outputs, outputs named like inputs/initializers, nodes moved into subgraphs, scope shadowing,
   duplicated/unnamed initializers, duplicate attributes/functions, unknown function outputs, ref_attr_name on
-  graph attributes, subgraph outputs produced only in an enclosing graph), byte-level mutations parsed by protobuf first, and unconstrained random protos.
+  graph attributes, subgraph outputs produced only in an enclosing graph, `name` fields ABSENT rather than empty,
+  names that look generated (val_0, node_Relu_0), external locations with backslashes and other odd characters),
+  byte-level mutations parsed by protobuf first, and unconstrained random protos.
   Compared inside Coq per case: raise-vs-return, Canon.canon of the returned IR (every public link with
   first-visit labels incl. uses order, producer/index, flags, owner, const tensor, payload), the re-serialized
   proto, and the model's fixpoint verdict against the implementation's.
+* Order independence: before anything else, 40 (thorough 600) SEQUENCES (A, B) are run in this process: A fails
+  half-way through its main graph, B reads as a dangling name a name A declared; from_proto(B) must give the same
+  canonical observation and the same oracle verdict before and after the failing from_proto(A) (replay kind
+  "sequence" carries both protos).
+* Reading of "consistent", extended: besides I1-I7, everything a value of the returned model is linked to must be
+  part of the model (I1x: a consumer in no graph of the model; I2x: a producer in no graph of the model; a produced
+  value is owned by its producer's graph).  On the unchanged tree I1x fails at one site, recorded as KNOWN finding
+  ghost-consumers-of-dropped-duplicate-attribute (a GRAPH attribute dropped because a later attribute repeats its
+  name has already been deserialized: its nodes stay in uses() of outer values; I1-I7 hold pairwise, Inv is not
+  violated; proposed_fixes/C17-duplicate-attribute-last-only.diff); attribution by repair = keep the last
+  attribute of a repeated name.
 * Reading of "raises": any exception type (SerdeError wraps everything); only raise-vs-return is compared.
 * Reading of "consistent": C01's I1-I7 restricted to what public accessors show (Value.graph falls back to
   the producer's graph, so I7 is checked for producer-less values; ref-counts of the IO lists are not
@@ -74,6 +87,10 @@ LOG (decisions)
   M5 GraphInitializers._set_graph does not flag a value that is already a graph input -> oracle I5, concrete replay;
   M6 _remove_trailing_outputs off by one -> oracle fixpoint, concrete replay;
   M7 ExternalTensor.__init__ probes the file (os.path.exists/getsize) -> oracle file access, concrete replay.
+  Independent seeded changes (tools/seed_eval.py), all detected with a concrete input: C17-m1/m2/m3, C17-r2m1 (graph
+  input with ABSENT name gets None -> val_0 -> re-serialized proto redeclares val_0: fixpoint oracle), C17-r2m2
+  (scoped_values as mutable default: sequence check), C17-r2m3 (ExternalTensor stats the file when the location has
+  a backslash: file-access oracle).
 """
 
 from __future__ import annotations
